@@ -19,7 +19,7 @@ class DefNet:
     @property
     def wires(self):
         ww = defaultdict(list)
-        [ww[dw.layer].append((int(dw.width), dw.wire_points)) for dw in self.routed if len(dw.wire_points) > 0]
+        [ww[dw.layer].append((None if dw.width is None else int(dw.width), dw.wire_points)) for dw in self.routed if len(dw.wire_points) > 0]
         return ww
 
     @property
